@@ -15,11 +15,11 @@ EXTENDS Integers, Sequences, SequencesExt, FiniteSets, TLC, Json
 CONSTANTS OutFile, MaxSettings, AllOrders
 
 Min2(a, b) == IF a <= b THEN a ELSE b
-Types == { [ref |-> r, sel |-> g, age |-> a] : r \in {"foo", "other", ""}, g \in {"g1", "g2", "!bad"}, a \in {1, 2} }
+Types == { [ref |-> r, sel |-> g, age |-> a] : r \in {"foo", "other", ""}, g \in {"g1", "g2", "g1+g2", "!bad"}, a \in {1, 2} }
 \* all populations up to two settings; of three settings: all (Full) or those in which every setting selects g1 (maximal overlap)
 CONSTANT Full
 Populations == UNION { [1..n -> Types] : n \in 1..Min2(MaxSettings, 2) } \cup
-               (IF MaxSettings < 3 THEN {} ELSE IF Full THEN [1..3 -> Types] ELSE [1..3 -> { t \in Types : t.sel = "g1" }])
+               (IF MaxSettings < 3 THEN {} ELSE IF Full THEN [1..3 -> { t \in Types : t.ref # "other" }] ELSE [1..3 -> { t \in Types : t.sel \in {"g1", "g1+g2"} /\ t.ref # "other" }])
 
 NodeGroups == [n1 |-> "g1", n2 |-> "g2", n3 |-> ""]
 NodeNames == {"n1", "n2", "n3"}
@@ -28,7 +28,8 @@ SName(i) == "s" \o ToString(i)
 ResOf(i) == "r" \o ToString(i)
 
 \* ---- reference: controllers/extendeddaemonsetsetting ----
-Matches(t, n) == t.sel # "!bad" /\ t.sel = NodeGroups[n]
+SelGroups(sel) == CASE sel = "g1" -> {"g1"} [] sel = "g2" -> {"g2"} [] sel = "g1+g2" -> {"g1", "g2"} [] OTHER -> {}
+Matches(t, n) == NodeGroups[n] \in SelGroups(t.sel)
 \* sort: newest first (smaller age), ties by name descending
 Before(pop, i, j) == pop[i].age < pop[j].age \/ (pop[i].age = pop[j].age /\ i > j)
 AnyBad(pop) == \E i \in DOMAIN pop : pop[i].sel = "!bad"
